@@ -188,8 +188,53 @@ def r20_3(ctx):
             okc = (len(crt) == 1 and is_call(crt[0], 'PathOp::transform') and crt[0][2][0] == ('param', 2)
                    and shared.upvar_index(crt[0][2][1]) == 0)
             ctx.check(okc, R, key + '|closure', cb.loc(), 'closure = |op| op.transform(transform)', 'closure returns %s, not op.transform(transform)' % [fmt(cb, t) for t in crt])
+    elif len(rts) == 1 and _whole_self(an, rts[0]) is not None:
+        # the path itself is returned after its ops were mapped in place: winding is untouched by construction
+        root = _whole_self(an, rts[0])
+        wst = [1 for a2, v2, pt2, k2 in an.stores if k2 in ('assign', 'local') and any(len(x) == 5 and x[0] == 'field' and x[2] == 'winding' and x[3] == 'raqote::path_builder::Path' for x in subterms(a2))]
+        ctx.check(not wst, R, key + '|winding', b.loc(), 'winding left as it is', 'Path::transform writes the winding rule of the path it returns')
+        sts = [(a2, v2, pt2) for a2, v2, pt2, k2 in an.stores if k2 == 'assign' and a2[0] in ('deref', 'index')]
+        okst = len(sts) == 1
+        if okst:
+            a2, v2, pt2 = sts[0]
+            v2 = strip_all(v2)
+            okst = is_call(v2, 'PathOp::transform') and strip_all(v2[2][1]) in (('param', 2), ('deref', ('param', 2)))
+            if okst:
+                old = strip_all(v2[2][0])
+                okst = nosite(old) in (nosite(strip_all(a2)), nosite(('deref', strip_all(a2[1]))) if a2[0] == 'deref' else None) or nosite(old) == nosite(a2)
+            if okst:
+                # the element written ranges over every op, in order: iter_mut() over the ops, or an index over 0..len
+                D = Deps(an)
+                D.closure(a2)
+                over_ops = any(len(x) == 5 and x[0] == 'field' and x[2] == 'ops' and x[3] == 'raqote::path_builder::Path' for x in (D.visited | D.touched))
+                it = any(is_call(x, 'iter_mut') for x in D.visited)
+                rng = False
+                for x in D.visited:
+                    if x[0] == 'agg' and x[2] and x[2].endswith('ops::Range'):
+                        f2 = dict(x[4])
+                        ln = strip_all(f2['end'])
+                        rng = rng or (const_val(f2['start']) == 0 and (is_call(ln, '::len') or (ln[0] == 'un' and ln[1] == 'PtrMetadata')))
+                okst = over_ops and (it or rng)
+        ctx.check(okst, R, key + '|ops', b.loc(), 'every op replaced in place by op.transform(transform), in order', 'Path::transform does not replace every op of the path by op.transform(transform) in place')
     else:
         ctx.fail(R, key + '|result', b.loc(), 'Path::transform does not return a Path aggregate: %s' % [fmt(b, t) for t in rts])
+
+
+def _whole_self(an, t):
+    """the returned value is the path parameter itself (possibly moved through a local): its root, else None"""
+    t = strip_all(t)
+    for _ in range(4):
+        if t == ('param', 1):
+            return t
+        if t[0] == 'mem' and t[1] == 1:
+            return t
+        if t[0] in ('mem', 'phi'):
+            ds = [d for d in an.defs_of.get(t[1], []) if not d.partial and d.kind in ('assign', 'local')]
+            if len(ds) == 1:
+                t = strip_all(an.def_term(ds[0]))
+                continue
+        break
+    return None
 
 
 def r20_4(ctx):
